@@ -244,7 +244,8 @@ _WCASES = {}
 
 def wcases(tname, targs):
     if (tname, targs) not in _WCASES:
-        own = T.own_cases(tname, targs, cap=48)
+        import os
+        own = T.own_cases(tname, targs, cap=200 if os.environ.get('VERIF_TIER') == 'thorough' else 48)
         nvar = T.max_var_n(tname, targs)
         out, seen = [], set()
         for i, o in enumerate(own):
